@@ -316,6 +316,9 @@ fn judge_value(id: &str, origin: &str, src: &str, path: &Option<PathBuf>, config
         }
     };
     if base.nerr > 0 {
+        if std::env::var("C14_SHOW_SKIPPED").is_ok() {
+            return serde_json::json!({"id": id, "origin": origin, "skip": "parse-errors", "src": src});
+        }
         return serde_json::json!({"id": id, "origin": origin, "skip": "parse-errors"});
     }
     let mut fails = vec![];
@@ -1030,6 +1033,37 @@ mod progs {
         fn id(&mut self) -> String {
             self.r.pick(&IDS).to_string()
         }
+        /// a type in annotation position: primitives, tuples, function types (also curried / nested), arrays, code types
+        /// (record types are an open finding class and are not generated)
+        fn ty(&mut self, d: usize) -> String {
+            if d == 0 {
+                return self.r.pick(&["float", "float", "int", "string"]).to_string();
+            }
+            match self.r.below(9) {
+                0 | 1 | 2 => self.r.pick(&["float", "float", "int", "string"]).to_string(),
+                3 => format!("({},{}{})", self.ty(d - 1), self.sp(), self.ty(d - 1)),
+                4 | 5 => format!("({}){}->{}{}", self.ty(d - 1), self.sp(), self.sp(), self.ty(d - 1)),
+                6 => format!("({}, {})->{}", self.ty(d - 1), self.ty(d - 1), self.ty(d - 1)),
+                7 => format!("[{}]", self.ty(d - 1)),
+                _ => format!("`{}", self.ty(d - 1)),
+            }
+        }
+        /// optional `:T` after a lambda parameter or a `let` name
+        fn opt_ann(&mut self) -> String {
+            if self.r.chance(1, 3) {
+                format!("{}:{}{}", self.sp(), self.sp(), self.ty(2))
+            } else {
+                String::new()
+            }
+        }
+        /// optional `->T` return annotation (lambda or fn)
+        fn opt_ret(&mut self) -> String {
+            if self.r.chance(1, 3) {
+                format!("{}->{}{}", self.sp(), self.sp(), self.ty(2))
+            } else {
+                String::new()
+            }
+        }
         fn lit(&mut self) -> String {
             match self.r.below(8) {
                 0 => "0.0".into(),
@@ -1097,12 +1131,15 @@ mod progs {
                 }
                 13 => {
                     let n = 1 + self.r.below(3) as usize;
-                    let ps: Vec<String> = (0..n).map(|_| self.id()).collect();
+                    let ps: Vec<String> = (0..n).map(|_| format!("{}{}", self.id(), self.opt_ann())).collect();
+                    let ret = self.opt_ret();
                     let body = self.expr(d - 1, ind);
                     if self.r.chance(1, 2) {
-                        format!("|{}|{}{body}", ps.join(","), self.sp())
+                        // a return annotation needs white space before an expression body that starts with a word
+                        let gap = if ret.is_empty() { self.sp() } else { " " };
+                        format!("|{}|{ret}{gap}{body}", ps.join(","))
                     } else {
-                        format!("|{}| {{\n{}{body}\n{}}}", ps.join(", "), " ".repeat(ind + 2), " ".repeat(ind))
+                        format!("|{}|{ret} {{\n{}{body}\n{}}}", ps.join(", "), " ".repeat(ind + 2), " ".repeat(ind))
                     }
                 }
                 14 => {
@@ -1118,7 +1155,7 @@ mod progs {
         }
         fn stmt(&mut self, d: usize, ind: usize) -> String {
             match self.r.below(8) {
-                0 | 1 | 2 => format!("let {}{}={}{}", self.id(), self.sp(), self.sp(), self.expr(d, ind)),
+                0 | 1 | 2 => format!("let {}{}{}={}{}", self.id(), self.opt_ann(), self.sp(), self.sp(), self.expr(d, ind)),
                 3 => format!("let ({}, {}) = ({}, {})", self.id(), self.id(), self.expr(d.min(1), ind), self.expr(d.min(1), ind)),
                 4 => format!("{} = {}", self.id(), self.expr(d, ind)),
                 _ => self.expr(d, ind),
@@ -1189,7 +1226,8 @@ mod progs {
                     let ps: Vec<String> = (0..np).map(|_| self.id()).collect();
                     let body = self.stmts(d, 2);
                     // the statement after a function declaration carries no leading comment (finding F14: after `}`)
-                    s.push_str(&format!("fn f{i}({}){}{{\n{body}}}\n", ps.join(","), self.sp()));
+                    let ret = self.opt_ret();
+                    s.push_str(&format!("fn f{i}({}){ret}{}{{\n{body}}}\n", ps.join(","), self.sp()));
                 } else {
                     s.push_str(&self.stmt(d, 0));
                     s.push('\n');
